@@ -42,6 +42,7 @@ CoreAtoms == {"0", "0.0", "-0.0", "False", "1", "1.0", "True", "None"}
 MidAtoms  == {"0", "0.0", "-0.0", "False", "1", "1.0", "True", "2", "B", "Bf", "None", "'s'"}
 ZeroOne   == {"0", "0.0", "-0.0", "1", "1.0", "True"}
 Zeros     == {"0.0", "-0.0", "1", "1.0"}
+Zeros3    == {"0.0", "-0.0", "1"}
 QuickAtoms == {"0", "0.0", "-0.0", "False", "1", "True"}
 NoAtoms   == {}
 
